@@ -21,7 +21,7 @@ import pml_run as P
 SWITCHES = ['in_predicate_reads_root', 'initial_ancestor_loop_breaks', 'deep_completion_test_unnegated',
             'history_default_only_if_parent_inactive', 'nested_history_for_shallow', 'star_in_descriptor_list_ignored',
             'history_completion_covered', 'transition_found_flag_stale', '(variant) history_covering_inner_first',
-            'cond_not_parenthesised']
+            'cond_not_parenthesised', 'completion_ancestors_only_when_not_a_child']
 NV = len(SWITCHES)
 VARIANT_BIT = 8
 COND_BIT = 9
@@ -686,7 +686,11 @@ def run(c):
         mo, _ = run_lines_sharded(vm, lines, timeout=1500)
         per = NV + 1
         # the oracle itself must be reproducible: the large engine is run again on these charts
-        large2, _ = run_lines_sharded(vd, [impl_line('large', cases[i]['tree'], 'promela', False, []) for i in idxs], timeout=1500)
+        # (each in a process of its own: what was seen to vary is the large engine's result for the same document when
+        # several interpreters have lived in one process)
+        from concurrent.futures import ThreadPoolExecutor
+        with ThreadPoolExecutor(max_workers=NCPU) as ex:
+            large2 = list(ex.map(lambda i: (run_lines(vd, [impl_line('large', cases[i]['tree'], 'promela', False, [])])[1] or ['CRASH'])[0], idxs))
         for n, i in enumerate(idxs):
             if view_interp(large2[n]) != view_interp(large[i]):
                 classes.setdefault('interpreter-not-reproducible(large-engine)', []).append(i)
